@@ -27,14 +27,31 @@ def pick_tags(rng):
     return ",".join(rng.choice(TAGS) for _ in range(1 + rng.below(4)))
 
 
+UTAGS = ["travel", "music", "flowers", "a1", "b2", "basic:alice", "rest:tag", "rest:other"]     # tags of accounts: normalised, as the server stores them
+
+
+def pick_query(rng):
+    """a search string for `fnd`: tags joined by `,` (OR) and `+` (standing for a space: AND), now and then quoted, in capitals, of a
+    masked namespace (`rest:`), unknown, or malformed"""
+    k = rng.below(12)
+    if k == 0:
+        return rng.choice(['"a', 'a1,,b2', '"music"x', ',', '"', 'music,', ',music', 'x', 'rest:tag', 'music,rest:tag', 'null'])
+    terms = [rng.choice(UTAGS[:6] + ["music", "travel", "Music", "TRAVEL", '"music"', "zz9", "rest:tag"]) for _ in range(1 + rng.below(4))]
+    q = terms[0]
+    for t in terms[1:]:
+        q += rng.choice([",", ",", "+", "+", "+,", ",+"]) + t
+    return q
+
+
 def gen_case(rng, n_ops, faults=False, crashes=False):
     out = [f"reset {rng.choice([32, 32, 32, 3, 4])}"]
     users = ["U1", "U2", "U3", "U4"]
     for u in users:
         # default access of an account as the server stores it (user.go:97-117, topic.go:2184-2203): within JRWPAS / JRWPA, and
         # with A unless it is N
+        utags = sorted(set(rng.choice(UTAGS) for _ in range(rng.below(4))))
         out.append(f"user {u} {rng.choice(['JRWPAS', 'JRWPAS', 'JRWPA', 'JRWA', 'N', 'JRPAS'])} {rng.choice(['JRA', 'N', 'JRWA'])}"
-                   + (" state=susp" if u == "U4" and rng.chance(1, 4) else ""))
+                   + (" state=susp" if u == "U4" and rng.chance(1, 4) else "") + (" tags=" + ",".join(utags) if utags else ""))
     sess = [("S1", "U1", "auth", ""), ("S2", "U2", "auth", ""), ("S3", "U3", "auth", ""), ("S4", "U1", "auth", ""),
             ("S5", "U2", "auth", "bg"), ("S6", "U4", "anon", ""), ("S7", "U3", "root", "")]
     for s, u, lvl, bg in sess:
@@ -54,6 +71,8 @@ def gen_case(rng, n_ops, faults=False, crashes=False):
             out.append(f"sess S8 U5 {lvl8}")
             out.append("sub S8 me")
             sess = sess + [("S8", "U5", lvl8, "")]
+    # the users' `fnd` topics: in one case out of three some sessions search
+    fnd_on = rng.chance(1, 3)
     ntop = 0
     contents = 0
     chans = set()       # channel-enabled group topics: U2 and U3 come to them as channel readers (`chn:` spelling), U1 and U4 as subscribers
@@ -68,6 +87,15 @@ def gen_case(rng, n_ops, faults=False, crashes=False):
                             f"setsub {s} me user={rng.choice(users)} mode=JRWPAS"])
             if faults and o.split(" ")[0] in ("sub", "leave", "get", "setsub") and rng.chance(1, 6):
                 out.append(f"fail {1 + rng.below(3)}")      # a store failure, consumed by the request which follows
+            out.append(o)
+            continue
+        if fnd_on and rng.chance(1, 7):
+            o = rng.choice([f"sub {s} fnd", f"sub {s} fnd", f"setdesc {s} fnd pub={pick_query(rng)}", f"setdesc {s} fnd pub={pick_query(rng)}",
+                            f"get {s} fnd sub", f"get {s} fnd sub", f"get {s} fnd sub", f"get {s} fnd desc", f"leave {s} fnd", f"leave {s} fnd unsub=1",
+                            f"setdesc {s} fnd priv={rng.choice(['music', 'travel,a1', 'null', 'zz9'])}", f"pub {s} fnd CF",
+                            f"setsub {s} fnd mode={rng.choice(['JPS', 'JRWPS', 'JS', 'N', 'JPSO'])}", f"unload fnd:{su}", f"drop {s}"])
+            if faults and o.split(" ")[0] in ("sub", "get", "setdesc", "setsub") and rng.chance(1, 6):
+                out.append(f"fail {1 + rng.below(2)}")
             out.append(o)
             continue
         k = rng.below(100)
@@ -251,7 +279,9 @@ def _maybe_restart(rng, out, p=6):
 def scenario(rng, idx=None):
     """one short history aimed at a clause of the properties, with its parameters drawn at random; restarts are sprinkled in so
     that the same clause is also exercised on a reloaded topic"""
-    k = rng.below(21) if idx is None else idx % 21          # the stream goes through the kinds in turn
+    k = rng.below(23) if idx is None else idx % 23          # the stream goes through the kinds in turn
+    if k >= 21:
+        return scenario_fnd(rng)
     if k >= 17:
         return scenario_me(rng, k - 17)
     if k == 16:
@@ -503,12 +533,16 @@ def scenario_p2p(rng, k):
         for _ in range(1 + rng.below(3)):
             pub(rng.choice([sa, sb]), ub if rng.chance(1, 2) else ua)
         pub(sa, ub)
+        out.append(f"note {sb} {ua} {rng.choice(['read', 'recv'])} {n[0]}")          # the one who will leave has marks to lose
         out.append(rng.choice([f"leave {sb} {ua} unsub=1", f"deltopic {sb} {ua}", f"leave {sb} {ua} unsub=1"]))
         pub(sa, ub)
         # the one who stayed invites the other one again (mostly), with or without a mode
         out.append(rng.choice([f"setsub {sa} {ub} user={ub}", f"setsub {sa} {ub} user={ub} mode={rng.choice(['JRWPA', 'JRW', 'JRWPASD', 'N'])}",
                                f"setsub {sa} {ub} user={ub} mode={rng.choice(['JRWPA', 'JRWP', 'JRWPA'])}", f"setsub {sa} {ub} user={ub} mode=JRWPA",
                                f"get {sa} {ub} sub", f"note {sa} {ub} read {n[0]}"]))
+        if rng.chance(2, 3):
+            out.append(f"setsub {sa} {ub} user={ub} mode=JRWPA")       # invited again while the topic has stayed loaded
+            out.append(f"get {sb} {ua} desc")
         if _maybe_restart(rng, out, 5):
             out.append(f"sub {sa} {ub}")
         out.append(f"sub {sb} {ua}" + rng.choice(["", " mode=JRWPA", " priv=pvC"]))
@@ -637,7 +671,7 @@ WORLD_TRUSTED = [
     "store adapter (harness/overlay/main/verif_memadapter_test.go) written from the MySQL adapter's statements; the adapter is part "
     "of the trusted base, the goroutine scheduling of the real server is replaced by a deterministic pump",
     "Model/World.lean, TopicGrp.lean, TopicOps.lean, TopicReq.lean (group topics), TopicChan.lean (channels), TopicP2P.lean (peer-to-peer topics) and "
-    "TopicMe.lean (the users' `me` topics, the notifications between topics and the on/off handshake of pres.go) are a hand "
+    "TopicMe.lean (the users' `me` topics, the notifications between topics and the on/off handshake of pres.go) and TopicFnd.lean (the `fnd` topics and the search) are a hand "
     "transcription of the handlers; they are tied to the code only by the differential run (same requests, byte-identical replies, "
     "traffic, adapter calls and state digests)",
     "history monitors (vlib/worldmon.py) decide the property on the implementation's own output when the tie is broken",
@@ -645,7 +679,8 @@ WORLD_TRUSTED = [
 WORLD_ASSUMPTIONS = [
     "group, channel-enabled and peer-to-peer topics and the users' `me` topics ({sub}, {leave}, {pub}, {get desc}, {get sub} - the list of contacts "
     "with their online flags -, {set sub} - the user's own mode: without P the user is invisible -, idle unload, and everything the other topics and users tell a user there; not the other requests a `me` topic "
-    "serves: credentials, tags, {set desc}, {del}, user-agent changes; no fnd/sys), one server node, requests processed one at a time in arrival order, the hub's queue of "
+    "serves: credentials, tags, {set desc}, {del}, user-agent changes) and `fnd` topics ({sub}, {leave}, {set desc} - the query of the session, the stored query -, "
+    "{get sub} - the search -, {get desc}, {set sub}, {pub}; no sys), one server node, requests processed one at a time in arrival order, the hub's queue of "
     "notifications between topics drained after every request; on-behalf-of (root `as=`) requests are exercised on plain group "
     "topics only; on a channel-enabled topic two users come as readers (`chn` spelling) and two as subscribers, one request in twenty "
     "under the other spelling",
@@ -718,4 +753,34 @@ def scenario_me(rng, k):
             out.append(rng.choice(steps))
             _maybe_restart(rng, out, 30)
     out.extend(settle(users, ntop))
+    return out
+
+
+def scenario_fnd(rng):
+    """searching (C19): accounts and topics with tags, some suspended or deleted; an ordinary, an anonymous and a root session search
+    with OR / AND queries, quoted and malformed ones, tags of the masked namespace; queries are per session, the stored one per user"""
+    out = ["reset 32"]
+    for u in ("U1", "U2", "U3", "U4"):
+        utags = sorted(set(rng.choice(UTAGS) for _ in range(1 + rng.below(3))))
+        out.append(f"user {u} {rng.choice(['JRWPAS', 'JRWPA', 'JRWA'])} {rng.choice(['N', 'JRA'])}" + (" state=susp" if u == "U4" and rng.chance(1, 2) else "")
+                   + " tags=" + ",".join(utags))
+    for s, u, lvl, bg in (("S1", "U1", "auth", ""), ("S2", "U2", "auth", ""), ("S3", "U3", "auth", ""), ("S4", "U1", "auth", ""),
+                          ("S5", "U2", "auth", "bg"), ("S6", "U4", "anon", ""), ("S7", "U3", "root", "")):
+        out.append(f"sess {s} {u} {lvl} {bg}".strip())
+    for i in range(1 + rng.below(3)):
+        tg = sorted(set(rng.choice(TAGS[:5] + ["a1", "b2", "music", "travel"]).lower() for _ in range(1 + rng.below(3))))
+        out.append(f"newgrp {rng.choice(['S1', 'S2', 'S3'])} tags={','.join(t for t in tg if t[0].isalnum())}" + rng.choice(["", "", " chan=1"]))
+    searchers = ["S1", "S4", "S2", "S6", "S7"]
+    for s in searchers:
+        if rng.chance(3, 4):
+            out.append(f"sub {s} fnd")
+    steps = []
+    for s in searchers:
+        steps += [f"setdesc {s} fnd pub={pick_query(rng)}", f"setdesc {s} fnd pub={pick_query(rng)}", f"get {s} fnd sub", f"get {s} fnd sub", f"get {s} fnd desc"]
+    steps += ["deltopic S1 T1", "deltopic S2 T1", "userstate U2 susp", "userstate U2 ok", "settags S1 T1 tags=music,a1", "leave S1 fnd", "sub S1 fnd", "drop S4",
+              "setdesc S1 fnd priv=music,travel", "setdesc S1 fnd pub=null", "restart", "sub S1 me", "fg S5", "sub S5 fnd", "unload fnd:U1"]
+    for _ in range(8 + rng.below(14)):
+        out.append(rng.choice(steps))
+    for s in searchers:
+        out.append(f"get {s} fnd sub")
     return out
